@@ -109,6 +109,8 @@ OPS = {
         op("memo-reading-table-not-cleared", "fire", [(B, "    get_bonding_capacity.cache_clear()\n", "")], ["R7"]),
     ],
     "C04": [
+        op("early-exit-for-two-bonds", "fire", [(E, "    out_bonds = mol.get_out_dirbonds(atom.index)\n\n    # 1. rings", "    out_bonds = mol.get_out_dirbonds(atom.index)\n    if len(out_bonds) < 3:\n        return False\n\n    # 1. rings")], ["S4"]),
+        op("early-exit-for-one-bond", "silent", [(E, "    out_bonds = mol.get_out_dirbonds(atom.index)\n\n    # 1. rings", "    out_bonds = mol.get_out_dirbonds(atom.index)\n    if len(out_bonds) < 2:\n        return False\n\n    # 1. rings")]),
         op("marks-on-double-ring-bond", "fire", [(E, "    if (lbond.order != 1) or all(b.stereo is None for b in (lbond, rbond)):", "    if (lbond.order == 3) or all(b.stereo is None for b in (lbond, rbond)):")], ["S2", "S1"]),
         op("ring-bond-directions-differ-in-order", "fire", [(M, "        b_bond = DirectedBond(b, a, order, b_stereo, True)", "        b_bond = DirectedBond(b, a, 1, b_stereo, True)")], ["S3"]),
         op("ring-bond-ctor-by-keyword", "silent", [(M, "        b_bond = DirectedBond(b, a, order, b_stereo, True)", "        b_bond = DirectedBond(src=b, dst=a, order=order, stereo=b_stereo, ring_bond=True)")]),
@@ -132,6 +134,9 @@ OPS = {
         op("closure-marks-swapped-ends", "fire", [(S, "        a=latom.index, a_stereo=lstereo, a_pos=lpos,\n        b=ratom.index, b_stereo=rstereo,", "        a=latom.index, a_stereo=lstereo, a_pos=lpos,\n        b=ratom.index, b_stereo=lstereo,")], ["S6"]),
     ],
     "C05": [
+        op("half-bond-lost-in-electron-count", "fire", [(M, "                               + int(self._bond_counts[node]) \n                               + int(2 * (self._bond_counts[node] % 1)))", "                               + round(self._bond_counts[node]))")], ["K6"]),
+        op("vertices-from-kept-bonds", "fire", [(M, "        label_to_node = list(sorted(kept_nodes))", "        label_to_node = sorted({n for n in kept_nodes for a in ds[n] if a in kept_nodes})"),
+                                                 (M, "        pruned_ds = [list() for _ in range(len(kept_nodes))]\n        for node in kept_nodes:", "        pruned_ds = [list() for _ in range(len(label_to_node))]\n        for node in label_to_node:")], ["K8"]),
         op("prune-rule-free-electrons-not-one", "fire", [(M, "                return not ((free_electrons >= 0) and (free_electrons % 2 != 0))", "                return free_electrons != 1")], ["K6"]),
         op("prune-ignores-explicit-hydrogens", "fire", [(M, "            used_electrons += atom.h_count\n", "            used_electrons += 0\n")], ["K6"]),
         op("prune-uses-first-valence", "fire", [(M, "            valence = valences[-1] - atom.charge", "            valence = valences[0] - atom.charge")], ["K6"]),
@@ -162,6 +167,7 @@ OPS = {
         op("break-after-first-error", "silent", [(E, "            errors.append((atom_to_smiles(atom), bond_count, bond_cap))", "            errors.append((atom_to_smiles(atom), bond_count, bond_cap))\n            break")]),
     ],
     "C07": [
+        op("table-loop-stops-at-wildcard", "fire", [(B, "        if (m > c) or (a == \"?\"):\n            continue", "        if a == \"?\":\n            break\n        if m > c:\n            continue")], ["A3"]),
         op("ring-formation-ignores-right-capacity", "fire", [(D, "        order = min(order, lfree, rfree)", "        order = min(order, lfree)")], ["A6"]),
         op("setter-keeps-callers-dict", "fire", [(B, "        _current_constraints = dict(bond_constraints)", "        _current_constraints = bond_constraints")], ["A4"]),
         op("isnumeric-keys", "fire", [(B, '''                valid = ((key[:j] in ELEMENTS) and c.isascii() and c.isdigit()
@@ -223,6 +229,7 @@ OPS = {
         op("module-level-ring-queue", "fire", [(D, "    rings = []\n", "    rings = _RINGS\n"), (D, "def decoder(", "_RINGS = []\n\n\ndef decoder(")], ["P3", "P1"]),
     ],
     "C12": [
+        op("unchanged-looking-table-not-installed", "fire", [(B, "        _current_constraints = dict(bond_constraints)\n", "        if all(_current_constraints.get(k) == v for k, v in bond_constraints.items()):\n            return\n        _current_constraints = dict(bond_constraints)\n")], ["G2"]),
         op("unchanged-entries-skip-validation", "fire", [(B, "        for key, value in bond_constraints.items():\n", "        for key, value in bond_constraints.items():\n            if _current_constraints.get(key) == value:\n                continue\n")], ["G3"]),
         op("falsy-argument-replaced-by-default", "fire", [(B, "    global _current_constraints\n\n    if isinstance(bond_constraints, str):", "    global _current_constraints\n\n    bond_constraints = bond_constraints or \"default\"\n    if isinstance(bond_constraints, str):")], ["G3"]),
         op("return-live-dict", "fire", [(B, "    return dict(_current_constraints)", "    return _current_constraints")], ["G1"]),
@@ -244,6 +251,7 @@ OPS = {
         op("pad-plus-one", "fire", [(U, '        selfies += "[nop]" * (pad_to_len - len_selfies(selfies))', '        selfies += "[nop]" * (pad_to_len - len_selfies(selfies) + 1)')], ["N3"]),
     ],
     "C14": [
+        op("length-counts-dots-of-stripped-copy", "fire", [(SU_, '    return selfies.count("[") + selfies.count(".")', '    return selfies.count("[") + selfies.strip(".").count(".")')], ["K4"]),
         op("closing-bracket-search-skips-a-char", "fire", [(SU_, '        right_idx = selfies.find("]", left_idx + 1)', '        right_idx = selfies.find("]", left_idx + 2)')], ["K5"]),
         op("emptiness-probe-consumes-iterator", "fire", [("selfies/utils/selfies_utils.py", "    alphabet = set()\n", "    alphabet = set()\n    if not any(selfies_iter):\n        return alphabet\n")], ["K6"]),
         op("alphabet-cached-alias", "fire", [("selfies/utils/selfies_utils.py", "    alphabet = set()\n    for s in selfies_iter:", "    alphabet = _SEEN\n    for s in selfies_iter:"),
